@@ -232,6 +232,9 @@ func verifOnSync(f func()) {
 	verifState.mu.Unlock()
 }
 
+// verifSyncAfter: the scheduling point after a releasing operation (schedule replay only).
+func verifSyncAfter() { verifPark() }
+
 func verifSyncPoint() {
 	verifPark()
 	verifState.mu.Lock()
@@ -573,7 +576,16 @@ func verifThreadEnd(id int) {
 			}
 			return
 		}
-		panic(r)
+		// a panic on a goroutine other than the harness's: report it instead of killing the test binary
+		buf := make([]byte, 4096)
+		n := runtime.Stack(buf, false)
+		verifState.mu.Lock()
+		done := verifState.doneCh
+		verifState.mu.Unlock()
+		select {
+		case done <- fmt.Sprintf("panic:%v\n%s", r, buf[:n]):
+		default:
+		}
 	}
 }
 
